@@ -1,0 +1,318 @@
+//go:build verif
+
+// Contracts for package transformations, checked by /verif/govc (comment-only file; no code).
+// Property C14: every transformation is total (no panic for any byte string), and its change report is
+// sound: it never reports "unchanged" when the output differs from the input.
+package transformations
+
+//@ func none props C14,C07
+//@   ensures flag: !result1 ==> result0 == data
+//@   ensures isnil(result2)
+
+//@ func needsTransform props C14,C07
+//@   ensures !result ==> !(c >= 'A' && c <= 'Z') && c != '"' && c != '\'' && c != '\\' && c != '^' && c != ' ' && c != ',' && c != ';' && c != '\t' && c != '\r' && c != '\n' && c != '/' && c != '('
+
+//@ func cmdLine props C14,C07
+//@   ensures flag: !result1 ==> result0 == data
+//@   ensures isnil(result2)
+//@   loop 1 vars i
+//@     invariant 0 <= i && i <= len(data)
+
+//@ func doCMDLine props C14,C07
+//@   requires 0 <= pos && pos <= len(input)
+//@   ensures flag: !result1 ==> result0 == input
+//@   loop 1 vars i
+//@     invariant pos <= i && i <= len(input)
+//@     invariant 0 <= len(ret) && len(ret) <= i
+//@     invariant space ==> len(ret) >= 1
+//@     invariant !changed ==> len(ret) == i && (forall k int :: 0 <= k && k < i ==> ret[k] == input[k])
+//@     decreases len(input) - i
+
+// urlDecode reports "changed" whenever it finds a '%' or '+' (sound, possibly imprecise).
+//@ func urlDecode props C14,C07
+//@   ensures flag: !result1 ==> result0 == data
+//@   ensures isnil(result2)
+//@   loop 1 vars i
+//@     invariant 0 <= i && i <= len(data)
+//@     decreases len(data) - i
+
+//@ func doURLDecode props C14,C07
+//@   requires len(d) == len(input)
+//@   requires 0 <= pos && pos <= len(input)
+//@   loop 1 vars i,c
+//@     invariant pos <= c && c <= i && i <= len(input)
+//@     decreases len(input) - i
+
+//@ func urlDecodeUni props C14,C07
+//@   ensures flag: !result1 ==> result0 == data
+//@   ensures isnil(result2)
+//@   loop 1 vars i
+//@     invariant 0 <= i && i <= len(data)
+//@     decreases len(data) - i
+
+// d is a private copy of input (the caller passes []byte(data)). As long as nothing has been decoded, c == i and
+// every store writes a byte onto itself, so d still equals input everywhere.
+// NOTE: loop 3 is `for k := range n`; its header phi is "rangeint.iter", which the contract language cannot name,
+// so the bounds 0 <= k < n needed by index/input[start+k] and index/d[c+k] cannot be stated.
+//@ func inplaceUniDecode props C14,C07
+//@   requires len(d) == len(input)
+//@   requires 0 <= pos && pos <= len(input)
+//@   requires copyOf: forall k int :: 0 <= k && k < len(input) ==> d[k] == input[k]
+//@   ensures flag: !result1 ==> result0 == input
+//@   loop 1 vars i,c
+//@     invariant pos <= c && c <= i && i <= len(input)
+//@     invariant !changed ==> c == i && (forall m int :: 0 <= m && m < len(input) ==> d[m] == input[m])
+//@     decreases len(input) - i
+//@   loop 2 vars i
+//@     invariant start < i && i <= len(input)
+//@     decreases len(input) - i
+//@   loop 3
+//@     invariant !changed ==> (forall m int :: 0 <= m && m < len(input) ==> d[m] == input[m])
+
+//@ func isodigit props C14,C07
+//@   ensures result == (x >= '0' && x <= '7')
+
+//@ func jsDecode props C14,C07
+//@   ensures flag: !result1 ==> result0 == data
+//@   ensures isnil(result2)
+
+// d is a private copy of input; while nothing has been decoded c == i and every store is the identity.
+//@ func doJsDecode props C14,C07
+//@   requires 0 <= pos && pos <= len(input)
+//@   ensures flag: !result1 ==> result0 == input
+//@   loop 1 vars i,c
+//@     invariant len(d) == len(input)
+//@     invariant pos <= c && c <= i && i <= len(input)
+//@     invariant !changed ==> c == i && (forall m int :: 0 <= m && m < len(input) ==> d[m] == input[m])
+//@     decreases len(input) - i
+//@   loop 2 vars j
+//@     invariant 0 <= j && j <= 3 && i + j < len(input)
+//@     invariant len(buf) == 3
+//@     invariant !changed ==> (forall m int :: 0 <= m && m < len(input) ==> d[m] == input[m])
+//@     decreases 3 - j
+//@   loop 3 vars i,c
+//@     invariant pos <= c && c <= i && i <= len(input)
+//@     invariant !changed ==> c == i && (forall m int :: 0 <= m && m < len(input) ==> d[m] == input[m])
+//@     decreases len(input) - i
+
+//@ func isODigit props C14,C07
+//@   ensures result == (c >= '0' && c <= '7')
+
+//@ func escapeSeqDecode props C14,C07
+//@   ensures flag: !result1 ==> result0 == input
+//@   ensures isnil(result2)
+
+// data is a private copy of input; while nothing has been decoded d == i and every store is the identity.
+//@ func doEscapeSeqDecode props C14,C07
+//@   requires 0 <= pos && pos <= len(input)
+//@   ensures flag: !result1 ==> result0 == input
+//@   loop 1 vars i,d
+//@     invariant len(data) == len(input)
+//@     invariant pos <= d && d <= i && i <= len(input)
+//@     invariant !changed ==> d == i && (forall m int :: 0 <= m && m < len(input) ==> data[m] == input[m])
+//@     decreases len(input) - i
+//@   loop 2 vars j
+//@     invariant 2 <= j && j <= 4 && i + j <= len(input)
+//@     decreases 4 - j
+
+//@ func isspace props C14,C07
+//@   ensures result == (char == ' ' || char == '\f' || char == '\n' || char == '\t' || char == '\r' || char == '\v')
+
+//@ func xsingle2c props C14,C07
+
+// cssDecode reports "changed" whenever it finds a backslash (sound, possibly imprecise).
+//@ func cssDecode props C14,C07
+//@   ensures flag: !result1 ==> result0 == data
+//@   ensures isnil(result2)
+
+//@ func cssDecodeInplace props C14,C07
+//@   requires 0 <= pos && pos <= len(input)
+//@   loop 1 vars i
+//@     invariant pos <= i && i <= len(input)
+//@     decreases len(input) - i
+//@   loop 2 vars j
+//@     invariant 0 <= j && j <= 6 && i + j <= len(input)
+//@     decreases 6 - j
+//@   loop 3 vars k
+//@     invariant 0 <= k && k <= j
+//@     decreases j - k
+
+// input is value plus one padding byte. i may run one past the padding after a comment terminator; an open
+// comment has consumed at least its two-byte opener, which leaves room for the final ' '.
+//@ func removeComments props C14,C07
+//@   ensures flag: !result1 ==> result0 == value
+//@   ensures isnil(result2)
+//@   loop 1 vars i,j
+//@     invariant len(input) == len(value) + 1
+//@     invariant 0 <= j && j <= i && i <= len(value) + 1
+//@     invariant incomment ==> j + 2 <= i
+//@     invariant !changed ==> !incomment && j == i && i <= len(value) && (forall m int :: 0 <= m && m < len(value) ==> input[m] == value[m])
+//@     decreases len(value) + 1 - i
+
+//@ func removeCommentsChar props C14,C07
+//@   ensures flag: !result1 ==> result0 == value
+//@   ensures isnil(result2)
+//@   loop 1 vars i
+//@     invariant 0 <= i && i <= len(value)
+//@     invariant !changed ==> len(res) == i && (forall k int :: 0 <= k && k < i ==> res[k] == value[k])
+//@     decreases len(value) - i
+
+//@ func replaceComments props C14,C07
+//@   ensures flag: !result1 ==> result0 == data
+//@   ensures isnil(result2)
+
+// input is a private copy of value; outside a comment j <= i, inside one the two-byte opener has been skipped.
+//@ func doReplaceComments props C14,C07
+//@   ensures flag: !result1 ==> result0 == value
+//@   loop 1 vars i,j
+//@     invariant len(input) == len(value)
+//@     invariant 0 <= j && j <= i && i <= len(value)
+//@     invariant incomment ==> j + 2 <= i
+//@     invariant !changed ==> !incomment && j == i && (forall m int :: 0 <= m && m < len(value) ==> input[m] == value[m])
+//@     decreases len(value) - i
+
+//@ func isLatinSpace props C14,C07
+//@   ensures result == (r == '\t' || r == '\n' || r == '\v' || r == '\f' || r == '\r' || r == ' ' || r == 0x85 || r == 0xA0)
+
+//@ func compressWhitespace props C14,C07
+//@   ensures flag: !result1 ==> result0 == value
+//@   ensures isnil(result2)
+
+//@ func doCompressWhitespace props C14,C07
+//@   requires 0 <= pos && pos <= len(input)
+//@   ensures flag: !result1 ==> result0 == input
+//@   loop 1 vars i
+//@     invariant pos <= i && i <= len(input)
+//@     invariant !changed ==> len(ret) == i && (forall k int :: 0 <= k && k < i ==> ret[k] == input[k])
+//@     decreases len(input) - i
+
+//@ func numHexDigits props C14,C07
+//@   ensures 1 <= result && result <= 4
+
+// utf8ToUnicode reports "changed" exactly when it finds a non-ASCII rune (every such rune is rewritten as %uXXXX).
+//@ func utf8ToUnicode props C14,C07
+//@   ensures flag: !result1 ==> result0 == str
+//@   ensures isnil(result2)
+
+//@ func doUTF8ToUnicode props C14,C07
+//@   requires 0 <= pos && pos <= len(input)
+
+// ---- wrappers around library calls
+
+// These always report "changed".
+//@ func base64encode props C14,C07
+//@   ensures flag: !result1 ==> result0 == data
+//@   ensures isnil(result2)
+//@ func hexEncode props C14,C07
+//@   ensures flag: !result1 ==> result0 == data
+//@   ensures isnil(result2)
+//@ func length props C14,C07
+//@   ensures flag: !result1 ==> result0 == data
+//@   ensures isnil(result2)
+// tableLen: base64DecMap is a package-level slice literal of 128 entries that no function of the package assigns;
+// the engine has no notion of an immutable global, so the fact is stated as a precondition on the global state (it
+// does not restrict the input). Needed for index/base64DecMap[currChar] in doBase64decode.
+//@ func base64decode props C14,C07
+//@   requires tableLen: len(base64DecMap) == 128
+//@   ensures flag: !result1 ==> result0 == data
+//@   ensures isnil(result2)
+//@ func base64decodeext props C14,C07
+//@   requires tableLen: len(base64DecMap) == 128
+//@   ensures flag: !result1 ==> result0 == data
+//@   ensures isnil(result2)
+
+// hexDecode is the only transformation whose error result is reachable (odd length / non-hex byte). Callers discard the
+// value when err != nil (rule.go executeTransformations*), so the change report is only meaningful without an error.
+//@ func hexDecode props C14,C07
+//@   ensures flag: isnil(result2) ==> (!result1 ==> result0 == data)
+
+// md5T / sha1T return (data, false, err) if the hash writer fails, which keeps the flag sound.
+//@ func md5T props C14,C07
+//@   ensures flag: !result1 ==> result0 == data
+//@ func sha1T props C14,C07
+//@   ensures flag: !result1 ==> result0 == data
+
+// Flag computed by comparing contents: sound whatever the library call returns.
+//@ func lowerCase props C14,C07
+//@   ensures flag: !result1 ==> result0 == data
+//@   ensures isnil(result2)
+//@ func upperCase props C14,C07
+//@   ensures flag: !result1 ==> result0 == data
+//@   ensures isnil(result2)
+//@ func replaceNulls props C14,C07
+//@   ensures flag: !result1 ==> result0 == data
+//@   ensures isnil(result2)
+//@ func normalisePath props C14,C07
+//@   ensures flag: !result1 ==> result0 == data
+//@   ensures isnil(result2)
+//@ func normalisePathWin props C14,C07
+//@   ensures flag: !result1 ==> result0 == data
+//@   ensures isnil(result2)
+
+// Flag computed by comparing lengths: sound because the library call can only delete bytes (trusted specs of
+// strings.Trim*, strings.ReplaceAll with an empty replacement).
+//@ func trim props C14,C07
+//@   ensures flag: !result1 ==> result0 == data
+//@   ensures isnil(result2)
+//@ func trimLeft props C14,C07
+//@   ensures flag: !result1 ==> result0 == data
+//@   ensures isnil(result2)
+//@ func trimRight props C14,C07
+//@   ensures flag: !result1 ==> result0 == data
+//@   ensures isnil(result2)
+//@ func removeNulls props C14,C07
+//@   ensures flag: !result1 ==> result0 == data
+//@   ensures isnil(result2)
+
+// ---- helpers of normalisePathWin (totality)
+
+//@ func isASCIILetter props C14,C07
+//@   ensures result == ((b >= 'a' && b <= 'z') || (b >= 'A' && b <= 'Z'))
+
+//@ func isAllDots props C14,C07
+//@   ensures result <==> (forall k int :: 0 <= k && k < len(s) ==> s[k] == '.')
+//@   loop 1 vars i
+//@     invariant 0 <= i && i <= len(s)
+//@     invariant forall k int :: 0 <= k && k < i ==> s[k] == '.'
+//@     decreases len(s) - i
+
+//@ func hasTrimmableComponent props C14,C07
+//@   loop 1 vars i
+//@     invariant 0 <= start && start <= i && i <= len(data) + 1
+//@     decreases len(data) + 1 - i
+
+//@ func stripWindowsTrailingDotsAndSpaces props C14,C07
+//@   loop 1 vars i
+//@     invariant 0 <= start && start <= i && i <= len(data) + 1
+//@     decreases len(data) + 1 - i
+
+//@ func stripWindowsADS props C14,C07
+
+// ---- units on which the change-flag clause does NOT hold (genuine defects, see report)
+
+// htmlEntityDecode compares lengths, but html.UnescapeString can rewrite without changing the length:
+// "&#0" -> U+FFFD (3 bytes), "&nLl;" -> U+22D8 U+0338 (5 bytes), "&nvap;" -> U+224D U+20D2 (6 bytes).
+//@ func htmlEntityDecode props C14,C07
+//@   ensures flag: !result1 ==> result0 == data
+//@   ensures isnil(result2)
+
+// removeWhitespace sets the flag only when the mapping drops a rune, but strings.Map also rewrites every invalid UTF-8
+// byte to U+FFFD: "\xff" -> "\xef\xbf\xbd" with changed == false.
+//@ func removeWhitespace props C14,C07
+//@   ensures flag: !result1 ==> result0 == data
+//@   ensures isnil(result2)
+
+//@ func removeWhitespace$1 props C14,C07
+
+// ---- units blocked by the engine: `for i := range n` loops (header phi "rangeint.iter" cannot be named in an
+// invariant, so neither 0 <= i < n nor "!changed ==> d.content == input[0:i]" can be stated)
+
+//@ func urlEncode props C14,C07
+//@   ensures flag: !result1 ==> result0 == data
+//@   ensures isnil(result2)
+
+//@ func doURLEncode props C14,C07
+//@   ensures flag: !result1 ==> result0 == input
+
+//@ func doBase64decode props C14,C07
+//@   requires tableLen: len(base64DecMap) == 128
